@@ -367,6 +367,11 @@ class MessageManager(ClientLike):
         Args:
             module (Module): Module object to remove
         """
+        # Nothing to do if this module was already removed (e.g. by a delivery failure
+        # nested in the handling of its own request)
+        if self.modules.get(module.conn) is not module:
+            return
+
         # Drop all subscriptions for this module
         for msg_type in module.subs:
             self.subscriptions[msg_type].discard(module)
